@@ -108,7 +108,13 @@ func runCase(c Case) vh.Result {
 	}
 	reaches, oversize := false, false
 	passedRecords := 0
-	for i, segs := range c.Inputs {
+	// every bad input is presented twice (with the sentinels in between): a client that sends something bad usually
+	// sends it again, and state remembered about the first occurrence must not make the second one worse
+	twice := make([][]vh.Seg, 0, 2*len(c.Inputs))
+	for _, segs := range c.Inputs {
+		twice = append(twice, segs, segs)
+	}
+	for i, segs := range twice {
 		in := vh.Expand(segs)
 		if len(in) > 4*(c.MaxMsg+256) {
 			in = in[:4*(c.MaxMsg+256)] // the listener never hands over more than its line buffer
@@ -249,7 +255,7 @@ func enumKnown(yield func(Case) bool) {
 func TestC07Pipeline(t *testing.T) {
 	vh.Run(t, vh.Spec[Case]{
 		Name: "pipeline", Gen: gen, Run: runCase, Quick: 6000, Thorough: 60000, Enum: enumKnown, EnumOnlyShard0: true,
-		Rule: "hostile inputs (raw bytes; valid headers with each token replaced by empty/NIL/'<'/invalid UTF-8/embedded newline/short timestamps; mutated PRI and version; truncated lines; one token or the whole record padded to 0,1,31-33,1023-1025,65535/6,MaxMessage±1,MaxRecord±1,2x and 4x MaxRecord bytes with ASCII, multi-byte and invalid bytes) presented as records to the synchronous parse->extract->metric keys->transform->serialize->pack path under the sample configuration and generated configurations, at scaled (300/2000/70000 B) and production (1 MiB) limits; oracle = no panic or memory fault, input counters grow by exactly one record and len(input) bytes, and three well-formed sentinel records (one with escape sequences) processed right after each bad input give byte-identical output to a fresh pipeline; non-trivial = input >=32 bytes starting with '<' (reaches the parser) or longer than MaxRecordBytes",
+		Rule: "hostile inputs (raw bytes; valid headers with each token replaced by empty/NIL/'<'/invalid UTF-8/embedded newline/short timestamps; mutated PRI and version; truncated lines; one token or the whole record padded to 0,1,31-33,1023-1025,65535/6,MaxMessage±1,MaxRecord±1,2x and 4x MaxRecord bytes with ASCII, multi-byte and invalid bytes) presented, each twice, as records to the synchronous parse->extract->metric keys->transform->serialize->pack path under the sample configuration and generated configurations, at scaled (300/2000/70000 B) and production (1 MiB) limits; oracle = no panic or memory fault, input counters grow by exactly one record and len(input) bytes, and three well-formed sentinel records (one with escape sequences) processed right after each bad input give byte-identical output to a fresh pipeline; non-trivial = input >=32 bytes starting with '<' (reaches the parser) or longer than MaxRecordBytes",
 	})
 }
 
